@@ -1471,6 +1471,63 @@ class Lib:
             return math.ceil(x)
         return -z3.ToInt(-x)
 
+    def b_np_issubdtype(self, ex, st, args, kwargs, node):
+        d, k = args
+        if isinstance(d, Opaque) and d.kind == "dtype" and isinstance(k, Builtin):
+            have = d.get("name")
+            if k.name == "dtype_int":
+                return have == "int"
+            if k.name == "dtype_float":
+                return have == "real"
+        raise EngineError("%s:L%d: np.issubdtype outside the subset" % (ex.fnname, node.lineno))
+
+    def b_np_interp(self, ex, st, args, kwargs, node):
+        """np.interp(x, xp, fp): the piecewise-linear interpolant through (xp, fp), clamped to fp[0] / fp[-1]
+        outside [xp[0], xp[-1]].  numpy does not check that xp is increasing: that is an obligation here."""
+        trusted("numpy.interp(x, xp, fp): for increasing xp the straight-line interpolant between the adjacent points that "
+                "bracket x (exact at the points), fp[0] / fp[-1] outside [xp[0], xp[-1]]; validated by bounded.load_checks:run_C10")
+        if kwargs or len(args) != 3:
+            raise EngineError("%s:L%d: np.interp with left / right / period outside the subset" % (ex.fnname, node.lineno))
+        x = ex.as_seq(args[0], st)
+        xp = ex.as_seq(args[1], st)
+        fp = ex.as_seq(args[2], st)
+        ex.oblige(st, ex.cmp_eq(xp.n, fp.n), "interp-shapes", node)
+        ex.oblige(st, ex.cmp_le(1, xp.n), "interp-nonempty", node)
+        a, b = bvar("a"), bvar("b")
+        n = to_z3(xp.n)
+        ex.oblige(st, z3.ForAll([a, b], z3.Implies(z3.And(a >= 0, a < b, b < n),
+                                                   to_z3(as_real(xp.at(a))) < to_z3(as_real(xp.at(b))))), "interp-xp-increasing", node)
+        if ex.bound_stack:
+            raise EngineError("np.interp under a bound variable")
+        val = z3.Function(uid("interp"), I, R)
+        k, s = bvar("k"), bvar("s")
+        xk = to_z3(as_real(x.at(k)))
+        xs, xs1 = to_z3(as_real(xp.at(s))), to_z3(as_real(xp.at(s + 1)))
+        ys, ys1 = to_z3(as_real(fp.at(s))), to_z3(as_real(fp.at(s + 1)))
+        saved = ex.checking
+        ex.checking = False
+        try:
+            lin = ex.scalar_binop(ast.Add(), ys, ex.scalar_binop(ast.Div(), ex.scalar_binop(ast.Mult(), xk - xs, ys1 - ys, st, node),
+                                                                 xs1 - xs, st, node), st, node)
+        finally:
+            ex.checking = saved
+        m = to_z3(x.n)
+        st.assume(z3.ForAll([k, s], z3.Implies(z3.And(k >= 0, k < m, s >= 0, s < n - 1, xs <= xk, xk <= xs1),
+                                               z3.And(val(k) == lin, z3.Implies(xk == xs, val(k) == ys),
+                                                      z3.Implies(xk == xs1, val(k) == ys1)))))
+        st.assume(z3.ForAll([k], z3.Implies(z3.And(k >= 0, k < m),
+                                            z3.And(z3.Implies(xk <= to_z3(as_real(xp.at(0))), val(k) == to_z3(as_real(fp.at(0)))),
+                                                   z3.Implies(xk >= to_z3(as_real(xp.at(xp.n - 1))),
+                                                              val(k) == to_z3(as_real(fp.at(xp.n - 1)))))),
+                            patterns=[val(k)]))
+        # a bracketing segment exists for every x within the range (named, so that it can be instantiated)
+        seg = z3.Function(uid("interp_seg"), I, I)
+        xseg, xseg1 = to_z3(as_real(xp.at(seg(k)))), to_z3(as_real(xp.at(seg(k) + 1)))
+        st.assume(z3.ForAll([k], z3.Implies(z3.And(k >= 0, k < m, to_z3(as_real(xp.at(0))) <= xk, xk <= to_z3(as_real(xp.at(xp.n - 1))), n >= 2),
+                                            z3.And(seg(k) >= 0, seg(k) < n - 1, xseg <= xk, xk <= xseg1)),
+                            patterns=[val(k)]))
+        return Seq(x.n, lambda kk: val(to_z3(as_int(kk))), "array")
+
     def b_np_isscalar(self, ex, st, args, kwargs, node):
         return is_scalar(args[0])
 
